@@ -833,6 +833,32 @@ func init() {
 		p.Read(h, 0, 3*B)
 		p.Tail()
 	}})
+	Probes = append(Probes, Probe{"refused-setattr-that-also-sets-times", []string{"C09", "C10"}, 0, func(p *P) {
+		// a SETATTR that is refused for its size must not have applied the times it carries either (nothing of a refused
+		// request may stay in the cached inode: the next request that logs the inode would make it durable)
+		const B = 4096
+		f := p.Create(p.Root, "f").RFh
+		p.Write(f, 0, 5000, 2)
+		d := p.Mkdir(p.Root, "d").RFh
+		l := p.Symlink(p.Root, "l", "/t").RFh
+		time.Sleep(20 * time.Millisecond) // the server's clock has moved on since the objects were created
+		c := p.Call("SETATTR", f)
+		c.SetSize, c.Size, c.SizeSat, c.RawSize, c.How = true, HUGE, true, 1<<62, 1
+		p.do(c)
+		for _, h := range []string{d, l} {
+			c := p.Call("SETATTR", h)
+			c.SetSize, c.Size, c.How = true, 5, 1
+			p.do(c)
+		}
+		p.S.WaitIdle()
+		p.T.Emit(TakeSnap(p.S, "run", true))
+		p.Write(f, 10, 10, 2)
+		p.Create(d, "x")
+		p.S.WaitIdle()
+		p.T.Emit(TakeSnap(p.S, "run", true))
+		p.Restart()
+		p.Tail()
+	}})
 	Probes = append(Probes, Probe{"create-with-an-initial-size", []string{"C11", "C02", "C19"}, 0, func(p *P) {
 		// the size among CREATE's initial attributes may be ignored or applied, but never beyond what SETATTR accepts: a file
 		// whose size the block map cannot address crashes a later READ and keeps the thread that frees it busy for ever
